@@ -122,8 +122,12 @@ def main():
                     if s_ == 1 and rng.random() < 0.5:
                         return "[%d:%d]" % (a_, b_)
                     return "[%d:%d:%d]" % t
-                slab = "".join(slab_text(t) for t in pre)
+                # a hyperslab may name fewer axes than the variable has: the remaining axes are whole
+                named = rng.randint(1, rank - 1) if rank >= 2 and rng.random() < 0.3 else rank
+                pre = pre[:named] + [(0, 1, n - 1) for n in shape[named:]]
+                slab = "".join(slab_text(t) for t in pre[:named])
                 pre_np = tuple(slice(a, b + 1, s) for a, s, b in pre)
+                stats["short_url_constraint"] = stats.get("short_url_constraint", 0) + (named < rank)
                 stats["with_url_constraint"] += 1
             else:
                 slab, pre_np, pre = "", tuple(slice(None) for _ in shape), None
@@ -176,7 +180,7 @@ def main():
                             qs = [q for p, q in spy.seen if p.endswith(".dods")]
                             if ok and qs and len(q_cases) < (400 if T == "quick" else 4000):
                                 from urllib.parse import unquote
-                                stored = [slice(a, b + 1, s) for a, s, b in pre] if pre_on else [slice(None)] * rank
+                                stored = ([slice(a, b + 1, s) for a, s, b in pre[:named]] + [slice(None)] * (rank - named)) if pre_on else [slice(None)] * rank
                                 q_cases.append("(%s, %s, %s, %s)" % (
                                     clist(list(mshape), cz), clist(stored, c_item), clist(full, c_item),
                                     '"%s"%%string' % unquote(qs[-1])))
